@@ -3,7 +3,7 @@
 r=$1; shift; pids="$@"; [ -z "$pids" ] && pids=$r
 cd /verif; export VERIF_EVIDENCE_DIR=/verif/work/evidence_seeded
 [ -n "$(git -C /repo status --porcelain --untracked-files=no)" ] && { echo "/repo not clean"; exit 2; }
-trap 'git -C /repo checkout -- . ; python3 /verif/tools/extract_consts.py >/dev/null' EXIT
+trap 'git -C /repo checkout -- . ; python3 /verif/tools/extract_consts.py >/dev/null; python3 /verif/tools/rs2v.py >/dev/null' EXIT
 git -C /repo apply /verif/seeded/refactor_$r/patch.diff || { echo "APPLY-FAIL"; exit 2; }
 for p in $pids; do
   out=$(python3 tools/check.py $p --tier quick 2>&1); rc=$?
